@@ -264,6 +264,11 @@ def case_solve(ctx, rng, idx):
             elif op == "solve-again":
                 if name != "closed" and rng.random() < 0.5:
                     s.initialize_with = "fix"
+                elif name != "closed" and s.initialize_with == "closed_form" and \
+                        len(set(cur_Ns)) != 1:
+                    # a finalised solve may have dropped a dead stream of one user;
+                    # the closed-form initialisation is only defined for equal counts
+                    s.initialize_with = "random"
                 newP = s.P if rng.random() < 0.4 else (
                     10.0 ** rng.uniform(-1, 2, size=K) if rng.random() < 0.6 else
                     float(10.0 ** rng.uniform(-1, 2)))
